@@ -25,9 +25,13 @@
    Ghost   : released, ncrash, act
 
    The node is one validator in one height.  Its round state is kept abstract,
-       rs = [r, st, pb, lk]     round; st = -1 new height, 0 round entered, 1 proposal attempted,
-                                2 prevote attempted, 3 precommit attempted; pb the proposal block
-                                it holds in this round; lk the block it is locked on
+       rs = [r, st, pp, pb, lk, pk, opv]
+                                round; st = -1 new height, 0 round entered, 1 proposal attempted,
+                                2 prevote attempted, 3 precommit attempted; pp the proposal
+                                message it has in this round, pb the complete proposal block it
+                                holds; lk the block it is locked on; pk a polka of this round it
+                                has seen but could not act on yet; opv its own prevote of this
+                                round is in its vote set
    and the environment is the adversary: it chooses which inputs arrive (a complete proposal
    from the round's proposer, the propose timeout, a polka for any value or nil, +2/3-any and
    the wait timeouts), what the node's own freshly created proposal block is EVERY time
@@ -42,7 +46,15 @@ CONSTANTS Values,       \* block classes
           MaxRound,     \* rounds 0..MaxRound
           MaxTs,        \* timestamps 1..MaxTs (only equality matters)
           MaxCrashes,   \* crashes in the height
-          Proposer      \* the rounds in which this node is the proposer
+          Proposer,     \* the rounds in which this node is the proposer
+          ShortTornUndetected
+             (* TRUE = the code as it is: a torn WAL tail of 1..3 bytes is taken for a clean end of
+                the log (WALDecoder.Decode returns io.EOF when the 4-byte CRC read comes back short),
+                is not repaired at start-up, later records are appended behind it, and the NEXT
+                start-up finds the corruption in the middle of the log and repairWalFile drops
+                everything from there on - records that had been fsync'ed.  (Found while binding
+                this spec to the code; it is a defect of the WAL, property C15, and does not
+                endanger C04.)  FALSE = every torn tail is detected and repaired.             *)
 
 VARIABLES pv_file, pv_tmp, wal_synced, wal_unsynced,   \* durable
           up, pv_mem, rs, inq, pc, replay,             \* volatile
@@ -58,15 +70,24 @@ TmpNone == Marker(-1)
 TmpTorn == Marker(-2)
 
 \* ---------------------------------------------------------------- WAL records
-\* k = "in"  : t in {"start","tprop","prop","polka","any","next"}  (peer messages, timeouts)
-\* k = "own" : t in {"proposal","prevote","precommit"}             (internalMsgQueue)
-\* k = "torn": a partially written record at the end of the file
+\* k = "in"  : t in {"start","tprop","prop","polka","twait","any","next"}  (peer messages, timeouts)
+\* k = "own" : t in {"proposal","part","prevote","precommit"}      (internalMsgQueue; an own proposal
+\*                                                                  is two messages: the proposal and the block part)
+\* k = "torn": a partially written record; t = "long" (>= 4 bytes: detected) or "short" (1..3 bytes)
 Rec(k, t, r, v, ts) == [k |-> k, t |-> t, r |-> r, v |-> v, ts |-> ts]
-TornRec == Rec("torn", "none", 0, Nil, 0)
+TornRec(kind) == Rec("torn", kind, 0, Nil, 0)
+IsTorn(m) == m.k = "torn"
 InRec(t, r, v) == Rec("in", t, r, v, 0)
 
 \* ---------------------------------------------------------------- the abstract node
-InitRS == [r |-> 0, st |-> -1, pb |-> Nil, lk |-> Nil]
+NoPolka == "none"
+InitRS == [r |-> 0, st |-> -1, pp |-> Nil, pb |-> Nil, lk |-> Nil, pk |-> NoPolka, opv |-> FALSE]
+
+\* enterPrecommit with a polka for block v
+PrecommitOn(s, v) ==
+  IF s.lk = v \/ s.pb = v
+  THEN [rs |-> [s EXCEPT !.st = 3, !.lk = v, !.pk = NoPolka], want |-> [t |-> "precommit", r |-> s.r, v |-> v]]
+  ELSE [rs |-> [s EXCEPT !.st = 3, !.lk = Nil, !.pb = Nil, !.pk = NoPolka], want |-> [t |-> "precommit", r |-> s.r, v |-> Nil]]
 NoWant == [t |-> "none", r |-> 0, v |-> Nil]
 Want(t, r, v) == [t |-> t, r |-> r, v |-> v]
 
@@ -79,32 +100,46 @@ Handle(s, m, fv) ==
                       ELSE [rs |-> [s EXCEPT !.st = 0], want |-> NoWant]
   ELSE IF m.k = "in" /\ m.t = "tprop" /\ m.r = s.r /\ s.st \in {0, 1} THEN     \* timeoutPropose -> enterPrevote
     [rs |-> [s EXCEPT !.st = 2], want |-> Want("prevote", s.r, IF s.lk # Nil THEN s.lk ELSE s.pb)]
+  ELSE IF m.k = "own" /\ m.t = "proposal" /\ m.r = s.r /\ s.pp = Nil THEN        \* defaultSetProposal
+    [rs |-> [s EXCEPT !.pp = m.v], want |-> NoWant]
   ELSE IF /\ m.r = s.r /\ s.pb = Nil
-          /\ \/ (m.k = "in" /\ m.t = "prop")                    \* peer's proposal + all block parts
-             \/ (m.k = "own" /\ m.t = "proposal")               \* own proposal + parts from the internal queue
+          /\ (s.pk = NoPolka \/ s.pk = m.v)                      \* parts of another block no longer fit the header
+          /\ \/ (m.k = "in" /\ m.t = "prop" /\ s.pp = Nil)        \* peer's proposal + all block parts
+             \/ (m.k = "own" /\ m.t = "part" /\ s.pp = m.v)       \* own block part: addProposalBlockPart completes the block
        THEN
     IF s.st \in {0, 1}
-    THEN [rs |-> [s EXCEPT !.st = 2, !.pb = m.v], want |-> Want("prevote", s.r, IF s.lk # Nil THEN s.lk ELSE m.v)]
-    ELSE [rs |-> [s EXCEPT !.pb = m.v], want |-> NoWant]
-  ELSE IF m.k = "in" /\ m.t = "polka" /\ m.r = s.r /\ s.st = 2 THEN            \* +2/3 prevotes -> enterPrecommit
+    THEN [rs |-> [s EXCEPT !.st = 2, !.pp = m.v, !.pb = m.v], want |-> Want("prevote", s.r, IF s.lk # Nil THEN s.lk ELSE m.v)]
+    ELSE [rs |-> [s EXCEPT !.pp = m.v, !.pb = m.v], want |-> NoWant]
+  ELSE IF m.k = "own" /\ m.t = "prevote" /\ m.r = s.r /\ ~s.opv THEN
+    \* addVote of the own prevote (a duplicate is not added): with a polka on record and the
+    \* block meanwhile complete, "ok && isProposalComplete()" now holds: enterPrecommit
+    IF s.st = 2 /\ s.pk # NoPolka /\ s.pb = s.pk
+    THEN LET x == PrecommitOn(s, s.pk) IN [rs |-> [x.rs EXCEPT !.opv = TRUE], want |-> x.want]
+    ELSE [rs |-> [s EXCEPT !.opv = TRUE], want |-> NoWant]
+  ELSE IF m.k = "in" /\ m.t = "polka" /\ m.r = s.r /\ s.st = 2 /\ s.pk = NoPolka THEN    \* +2/3 prevotes
     IF m.v = Nil THEN [rs |-> [s EXCEPT !.st = 3, !.lk = Nil], want |-> Want("precommit", s.r, Nil)]
-    ELSE IF s.lk = m.v \/ s.pb = m.v THEN [rs |-> [s EXCEPT !.st = 3, !.lk = m.v], want |-> Want("precommit", s.r, m.v)]
-    ELSE [rs |-> [s EXCEPT !.st = 3, !.lk = Nil, !.pb = Nil], want |-> Want("precommit", s.r, Nil)]
-  ELSE IF m.k = "in" /\ m.t = "any" /\ m.r = s.r /\ s.st = 2 THEN              \* +2/3 any, timeoutPrevoteWait
+    ELSE IF s.pb = m.v THEN PrecommitOn(s, m.v)                  \* isProposalComplete: enterPrecommit now
+    \* addVote: "valid block we do not know about; set ProposalBlock=nil", parts header := the
+    \* polka's; the proposal is no longer complete: enterPrevoteWait
+    ELSE [rs |-> [s EXCEPT !.pk = m.v, !.pb = Nil], want |-> NoWant]
+  ELSE IF m.k = "in" /\ m.t = "twait" /\ m.r = s.r /\ s.st = 2 /\ s.pk # NoPolka THEN     \* timeoutPrevoteWait -> enterPrecommit
+    PrecommitOn(s, s.pk)
+  ELSE IF m.k = "in" /\ m.t = "any" /\ m.r = s.r /\ s.st = 2 /\ s.pk = NoPolka THEN    \* +2/3 any, timeoutPrevoteWait
     [rs |-> [s EXCEPT !.st = 3], want |-> Want("precommit", s.r, Nil)]
   ELSE IF m.k = "in" /\ m.t = "next" /\ m.r = s.r /\ s.st = 3 /\ s.r < MaxRound THEN  \* timeoutPrecommitWait -> enterNewRound(r+1)
     IF (s.r + 1) \in Proposer
-    THEN [rs |-> [r |-> s.r + 1, st |-> 1, pb |-> Nil, lk |-> s.lk],
+    THEN [rs |-> [r |-> s.r + 1, st |-> 1, pp |-> Nil, pb |-> Nil, lk |-> s.lk, pk |-> NoPolka, opv |-> FALSE],
           want |-> Want("proposal", s.r + 1, IF s.lk # Nil THEN s.lk ELSE fv)]
-    ELSE [rs |-> [r |-> s.r + 1, st |-> 0, pb |-> Nil, lk |-> s.lk], want |-> NoWant]
+    ELSE [rs |-> [r |-> s.r + 1, st |-> 0, pp |-> Nil, pb |-> Nil, lk |-> s.lk, pk |-> NoPolka, opv |-> FALSE], want |-> NoWant]
   ELSE [rs |-> s, want |-> NoWant]
 
 \* what the environment may deliver to a node in round state s
 Inputs(s) ==
   (IF s.st = -1 THEN {InRec("start", 0, Nil)} ELSE {})
   \cup (IF s.st \in {0, 1} THEN {InRec("tprop", s.r, Nil)} ELSE {})
-  \cup (IF s.st = 0 /\ s.r \notin Proposer /\ s.pb = Nil THEN {InRec("prop", s.r, v) : v \in Values} ELSE {})
-  \cup (IF s.st = 2 THEN {InRec("polka", s.r, v) : v \in Values \cup {Nil}} \cup {InRec("any", s.r, Nil)} ELSE {})
+  \cup (IF s.st = 0 /\ s.r \notin Proposer /\ s.pp = Nil THEN {InRec("prop", s.r, v) : v \in Values} ELSE {})
+  \cup (IF s.st = 2 /\ s.pk = NoPolka THEN {InRec("polka", s.r, v) : v \in Values \cup {Nil}} \cup {InRec("any", s.r, Nil)} ELSE {})
+  \cup (IF s.st = 2 /\ s.pk # NoPolka THEN {InRec("twait", s.r, Nil)} ELSE {})
   \cup (IF s.st = 3 /\ s.r < MaxRound THEN {InRec("next", s.r, Nil)} ELSE {})
 
 \* ---------------------------------------------------------------- pipeline
@@ -135,7 +170,14 @@ FlushWal ==
   /\ up /\ pc.stage = "flush"
   /\ IF Weak_NoFlushBeforeSign
      THEN UNCHANGED <<wal_synced, wal_unsynced>>
-     ELSE wal_synced' = wal_synced \o wal_unsynced /\ wal_unsynced' = << >>
+     ELSE /\ wal_unsynced' = << >>
+          /\ wal_synced' =
+               \* during catch-up replay the flush puts the buffered round-step records behind a
+               \* short torn tail; the replay reader then runs into garbage, the log is repaired
+               \* (cut at the tail) and replayed again, which changes nothing
+               IF replay > 0 /\ Len(wal_synced) > 0 /\ wal_synced[Len(wal_synced)] = TornRec("short")
+               THEN SubSeq(wal_synced, 1, Len(wal_synced) - 1)
+               ELSE wal_synced \o wal_unsynced
   /\ pc' = [pc EXCEPT !.stage = "check"]
   /\ act' = [name |-> "FlushWal"]
   /\ UNCHANGED <<pv_file, pv_tmp, up, pv_mem, rs, inq, replay, released, ncrash>>
@@ -166,8 +208,11 @@ Check(ts) ==
         /\ act' = [name |-> "Check", req |-> req, kind |-> res.kind, err |-> res.err, replaying |-> replay > 0]
   /\ UNCHANGED <<pv_file, pv_tmp, wal_synced, wal_unsynced, up, pv_mem, rs, inq, replay, released, ncrash>>
 
-\* the own message as the WAL and the handlers see it (its timestamp plays no role there)
-OwnRec(req, out) == Rec("own", req.t, req.r, out.v, 0)
+\* the own message(s) as the WAL and the handlers see them (the timestamp plays no role there);
+\* defaultDecideProposal queues the proposal and then the block parts
+OwnRecs(req, out) ==
+  IF req.t = "proposal" THEN <<Rec("own", "proposal", req.r, out.v, 0), Rec("own", "part", req.r, out.v, 0)>>
+  ELSE <<Rec("own", req.t, req.r, out.v, 0)>>
 
 \* PrivKey.Sign; saveSigned sets pv.LastSignState in memory
 ComputeSig ==
@@ -175,7 +220,7 @@ ComputeSig ==
   /\ pv_mem' = pc.new
   /\ IF Weak_ReleaseBeforeSave
      THEN /\ released' = released \cup {Rel(pc.req, pc.out)}
-          /\ inq' = Append(inq, OwnRec(pc.req, pc.out))
+          /\ inq' = inq \o OwnRecs(pc.req, pc.out)
           /\ pc' = [pc EXCEPT !.stage = "computed", !.done = TRUE]
      ELSE /\ UNCHANGED <<released, inq>>
           /\ pc' = [pc EXCEPT !.stage = "computed"]
@@ -202,7 +247,7 @@ Release ==
   /\ IF pc.done
      THEN UNCHANGED <<released, inq>>
      ELSE /\ released' = released \cup {Rel(pc.req, pc.out)}
-          /\ inq' = Append(inq, OwnRec(pc.req, pc.out))
+          /\ inq' = inq \o OwnRecs(pc.req, pc.out)
   /\ pc' = Back
   /\ act' = [name |-> "Release", req |-> pc.req, out |-> pc.out]
   /\ UNCHANGED <<pv_file, pv_tmp, wal_synced, wal_unsynced, up, pv_mem, rs, replay, ncrash>>
@@ -234,10 +279,11 @@ OwnHandle(fv) ==
    middle of the temp-file write leaves a torn temp file.                                   *)
 Crash ==
   /\ up /\ ncrash < MaxCrashes
-  /\ \E n \in 0..Len(wal_unsynced), torn \in BOOLEAN, tmptorn \in BOOLEAN :
-       /\ torn => n < Len(wal_unsynced)
+  /\ \E n \in 0..Len(wal_unsynced), torn \in {"no", "long", "short"}, tmptorn \in BOOLEAN :
+       /\ torn # "no" => n < Len(wal_unsynced)
+       /\ torn = "short" => ShortTornUndetected
        /\ tmptorn => pc.stage = "computed"
-       /\ wal_synced' = wal_synced \o SubSeq(wal_unsynced, 1, n) \o (IF torn THEN <<TornRec>> ELSE << >>)
+       /\ wal_synced' = wal_synced \o SubSeq(wal_unsynced, 1, n) \o (IF torn # "no" THEN <<TornRec(torn)>> ELSE << >>)
        /\ wal_unsynced' = << >>
        /\ pv_tmp' = IF tmptorn THEN TmpTorn ELSE pv_tmp
        /\ act' = [name |-> "Crash", stage |-> pc.stage, keep |-> n, torn |-> torn, tmptorn |-> tmptorn,
@@ -246,8 +292,13 @@ Crash ==
   /\ ncrash' = ncrash + 1
   /\ UNCHANGED <<pv_file, released>>
 
-\* a torn record can only be the last one; repairWalFile keeps everything before it
-Repaired(w) == IF Len(w) > 0 /\ w[Len(w)] = TornRec THEN SubSeq(w, 1, Len(w) - 1) ELSE w
+(* What catch-up replay makes of the log.  Reading stops at the first torn record.  If that is
+   a short one at the very end it looks like the end of the log and stays where it is; in every
+   other case the decoder reports corruption, State.OnStart runs repairWalFile, which keeps the
+   records before it and drops everything after it.                                         *)
+FirstTorn(w) == IF \E i \in DOMAIN w : IsTorn(w[i]) THEN CHOOSE i \in DOMAIN w : IsTorn(w[i]) /\ \A j \in 1..(i - 1) : ~IsTorn(w[j]) ELSE 0
+Repaired(w) == LET i == FirstTorn(w) IN
+               IF i = 0 \/ (i = Len(w) /\ w[i] = TornRec("short")) THEN w ELSE SubSeq(w, 1, i - 1)
 
 \* node start: LoadFilePV (ignores temp files), open the WAL (repair), begin catch-up replay
 Restart ==
@@ -255,14 +306,14 @@ Restart ==
   /\ up' = TRUE
   /\ pv_mem' = LoadLSS(pv_file)
   /\ wal_synced' = Repaired(wal_synced)
-  /\ replay' = IF Len(Repaired(wal_synced)) > 0 THEN 1 ELSE 0
+  /\ replay' = 1
   /\ act' = [name |-> "Restart", repaired |-> Repaired(wal_synced) # wal_synced]
   /\ UNCHANGED <<pv_file, pv_tmp, wal_unsynced, rs, inq, pc, released, ncrash>>
 
 \* catchupReplay: readReplayMessage -> handleMsg / handleTimeout (nothing is written for it)
 ReplayStep(fv) ==
   /\ up /\ pc.stage = "idle" /\ replay > 0
-  /\ IF replay > Len(wal_synced)
+  /\ IF replay > Len(wal_synced) \/ IsTorn(wal_synced[replay])
      THEN /\ replay' = 0 /\ UNCHANGED <<rs, pc>>
           /\ act' = [name |-> "ReplayDone"]
      ELSE /\ replay' = replay + 1
@@ -288,7 +339,8 @@ HRSMonotone          == [][LssLeq(pv_file, pv_file')]_scvars
 \* (a) everything that led to the decision is durable when the signer is asked
 FlushBeforeSign == pc.stage \in {"check", "sign", "computed", "tmp", "renamed", "release"} => wal_unsynced = << >>
 \* (b) therefore replay recomputes the same VOTE and the signer never refuses the node's own
-\*     vote as conflicting (a proposal can be refused: its block is made anew every time)
+\*     vote as conflicting (a proposal can be refused: its block is made anew every time).
+\*     Holds with ShortTornUndetected = FALSE only: a log that loses synced records breaks it.
 NoSelfLockout == [][(act'.name = "Check" /\ act'.err = "err_conflict") => act'.req.t = "proposal"]_scvars
 \* (c) an own message is handled only after it is durable in the WAL
 OwnDurableBeforeHandled == pc.stage = "ownhandle" => (wal_unsynced = << >> /\ \E i \in DOMAIN wal_synced : wal_synced[i] = Head(inq))
